@@ -1,0 +1,19 @@
+//go:build verif
+// +build verif
+
+package explore
+
+import (
+	"time"
+
+	"github.com/sirupsen/logrus"
+	"tkestack.io/kvass/pkg/scrape"
+)
+
+// VerifSetRetryInterval sets the retry interval (unexported field). Only with the "verif" build tag.
+func (e *Explore) VerifSetRetryInterval(d time.Duration) { e.retryInterval = d }
+
+// VerifSetProbe replaces the probe function (unexported field). Only with the "verif" build tag.
+func (e *Explore) VerifSetProbe(f func(log logrus.FieldLogger, scrapeInfo *scrape.JobInfo, url string) (*scrape.StatisticsSeriesResult, error)) {
+	e.explore = f
+}
